@@ -78,6 +78,14 @@ HISTORY = {
     "C15-single-variant-enum-tag-bit": "missed by every check at first: family D's skeleton has no single-variant enum; nine pure data-movement texts over single-variant enums, newtypes, marker enums and unit fields (AND count must be 0) added",
     "C16-last-use-map-backward-pass": "missed by C16 (which does not convert hand-built circuits); C10 reports it (enumerated SSA circuits with unused gates)",
     "C17-constrain-type-unary-overwrites": "missed at first: no mismatching expression had a unary operator at its root; holes !1, !k8, -ki, !(k8 + k8) (non-number types) and !true, !kb, !(kb == kb) (number types) and two condition templates added to KindMeetsType",
+    "C01-bit-operator-precedence-swapped": "missed by every check at first: the printer parenthesised every nested operand, so the parser's operator precedence was never exercised; binary operands are now printed with the minimal parentheses that the documented (Rust-like) precedence and left-associativity allow, in every family",
+    "C03-comparator-skip-shared-sign-wire": "missed by C03 (single-operator programs by design); C01 and C04 report it (family E, k = 2)",
+    "C05-const-forward-reference-accepted": "missed by C05 (the program is ill-typed); C17 (ConstScope) and C07 (span deletions of the constants guide) report it",
+    "C10-read-counters-saturate-u16": "missed by every check at first: the largest fan-out of any explored circuit was a few hundred; a fan-out ladder (one wire read by 1, 2, 254..257, 65534..65537, 70000 gates, chained or independent, the wire an output or not) added",
+    "C11-import-error-truncates-utf8": "missed at first: no offered file had a long line with multi-byte characters; lines whose 120th / 128th / 256th byte falls inside a multi-byte character (as a tail of every line of an export, as the only line, as the second line) added",
+    "C14-single-clause-match-leaks-scope": "missed by every check at first: nothing but bindings ever followed a shadowing let inside an inner scope; nine kinds of construct (single- and two-clause match, if, loop, block, pattern let, && with a block, index) are now placed inside four kinds of shadowing scope (block, loop body, branch, match arm), followed by reads and writes of the outer variables",
+    "C16-find-out-reg-same-operand-and": "missed by C16 (which does not convert hand-built circuits); C10 reports it (enumerated SSA circuits with repeated operands)",
+    "C17-pub-marker-not-reset": "missed at first: no program put `pub` in front of a struct, enum or const; four texts with an unused private fn after such an item added",
     "C17-match-arms-share-scope": "missed at first: UseAfterScope only covered loop variables and block locals; replaced by a reference model of lexical scoping (every use x every name bound elsewhere but not in scope)",
 }
 rows = []
